@@ -18,7 +18,12 @@ RULE = (
     "Oracle: read_module(print_module(m)) succeeds, prints identically, has the same initial memory image, the same "
     "volatile flags, and gives the same observation under vf/irsem.observe_call on every defined call. "
     "Shapes that hit an open known finding are removed from the generated module by construction (counted in excluded_known). "
-    "non-trivial = the module contains a construct outside {+ - *, i32 constants, jumps, return}; distinct = (module text | C source, opt level)"
+    "non-trivial = the module contains a construct outside {+ - *, i32 constants, jumps, return}; distinct = (module text | C source, opt level). "
+    "Thorough tier additionally: coverage-guided fuzzing of read_module (atheris/libFuzzer, vf/fuzz.py; two campaigns of VERIF_FUZZ_RUNS "
+    "(default 100000) executions, one from an empty corpus, one from ~60 printed modules; libFuzzer byte mutations plus line/token "
+    "mutations with the productions of the text format as dictionary): every text the reader accepts as a module that passes ppci's "
+    "verifier and vf/irwf must satisfy print(read(print(m))) == print(m) with equal globals and volatile flags; texts the reader rejects "
+    "are only counted (coverage[\"fuzz\"] holds executions, corpus growth and the outcome histogram)"
 )
 ASSUMPTIONS = [
     "IR semantics as written down in DESIGN.md 3.1 (vf/irsem.py)",
@@ -26,7 +31,8 @@ ASSUMPTIONS = [
     "every load/store of the re-read module is compared with the original's directly",
     "modules are printed with verify=False (the verifier is C03's subject)",
 ]
-TRUSTED = ["CPython", "Hypothesis", "vf/irsem.py (reference interpreter)", "vf/genir.py", "vf/irround.py", "ppci C front end and optimiser (case producers only)"]
+TRUSTED = ["CPython", "Hypothesis", "vf/irsem.py (reference interpreter)", "vf/genir.py", "vf/irround.py", "ppci C front end and optimiser (case producers only)",
+           "thorough tier: atheris 3.1 / libFuzzer (input producer only), ppci verifier + vf/irwf.py (decide which fuzzed texts are well-formed modules)"]
 REGISTER = True
 TECHNIQUE = "round-trip: print -> read -> print equality, initial-image and volatile-flag equality, reference-interpreter equivalence on Hypothesis-generated and C front-end modules"
 LEVEL_TEXT = (
@@ -190,7 +196,7 @@ def run_case(case, stats=None):
 
 def replay(case):
     if fuzz.is_case(case):
-        return fuzz.replay_case(case, fuzz_reader)
+        return fuzz.replay_case(case, lambda d: fuzz_reader(d, known_as_label=False))
     return run_case(case)[0]
 
 
@@ -375,7 +381,7 @@ def _open_ids():
     return open_finding_ids(PID)
 
 
-def fuzz_reader(data):
+def fuzz_reader(data, known_as_label=True):
     """One fuzz input = bytes of an IR text.  Returns an outcome label; raises fuzz.Failure on a C15 violation.
 
     C15 speaks about well-formed modules: whatever read_module does with a text it does not accept is only counted
@@ -411,7 +417,7 @@ def fuzz_reader(data):
         return "accepted:resource:" + type(e).__name__
     if msg is None:
         return "accepted:round-trip-ok" + (":functions" if m.functions else "")
-    kid = classify(fuzz.case(FUZZ_TARGET, data), msg)
+    kid = classify(fuzz.case(FUZZ_TARGET, data), msg) if known_as_label else None  # (replay reports; the runner classifies)
     if kid and kid in _open_ids():
         return "known:" + kid
     mo = re.search(r"raised (\w+)\(.*\) in (\S+)", msg, re.S)
